@@ -399,3 +399,26 @@ def exec_prog(p, inp, W):
             raise KeyError(f"out[{i}] never written")
         out.append(mem[(1, i)])
     return out
+
+
+# ---------------------------------------------------------------- Coq literals with binary indices (Model/GenStream.progN)
+def gexp_coqN(e):
+    k = e[0]
+    if k == "load":
+        return f"(NLoad {e[1]} {e[2]}%N)"
+    if k == "zero":
+        return "NZero"
+    if k == "not":
+        return f"(NNot {gexp_coqN(e[1])})"
+    return {"and": "(NAnd ", "or": "(NOr ", "xor": "(NXor "}[k] + gexp_coqN(e[1]) + " " + gexp_coqN(e[2]) + ")"
+
+
+def stmt_coqN(s):
+    if s[0] == "memcpy":
+        return f"NMemcpy {s[1]} {s[2]} {s[3]}%N"
+    return f"NAssign {s[1]} {s[2]}%N {gexp_coqN(s[3])}"
+
+
+def prog_coqN(p):
+    return ("{| sizesN := [" + "; ".join(f"{x}%N" for x in p["sizes"]) + "];\n   bodyN := [" +
+            ";\n     ".join(stmt_coqN(s) for s in p["body"]) + "] |}")
